@@ -139,4 +139,12 @@ def runCalls {σ ι ο : Type} (m : Module σ ι ο) : σ → List ι → σ × 
 abbrev Writes := List (String × Nat)
 def Writes.none (t : Writes) : Bool := t.all fun e => e.2 == 0
 
+/-- reductions over all axes that provably do not reach the output: `RIM.forward` computes `grad.abs().max()` only to
+emit a warning -/
+def allowedGlobal : List (String × String) := [("RIM.forward", "max")]
+
+/-- FINDING (current tree): the stopping test of `ConjGrad.cg` averages the residual norm over the *batch*
+(`rk_norm_sq_new.abs().sqrt().mean() < tol`): the number of CG iterations a sample gets depends on its companions -/
+def pendingGlobal : List (String × String) := [("ConjGrad.cg", "mean")]
+
 end DirectVerif.BatchSep
